@@ -55,6 +55,8 @@ func init() {
 		{"C13", "bytes", props.C13bytes},
 		{"C07", "adder", props.C07adder},
 		{"C05", "adder", props.C07adder},
+		{"C17", "garble", props.C01},
+		{"C14", "constindex", props.ConstIndexGuarded("types", "circuit", "compiler/ast", "compiler")},
 		{"C08", "reslice", props.ResliceGrowth},
 		{"C17", "reslice", props.ResliceGrowth},
 		{"C11", "narrowsend", props.NarrowSends},
